@@ -204,6 +204,19 @@ func (g *gen) chunkings(stream []byte, items []item, nrand int) []chunking {
 		}
 		out = append(out, chunking{"next+1", cutAt(stream, sortedUnique(cuts))})
 	}
+	// every item in two reads, the second of which spills 1..3 bytes into the next item's header
+	{
+		var cuts []int
+		start := 0
+		for _, e := range bs {
+			if e-start >= 2 {
+				cuts = append(cuts, start+1+g.rng.Intn(e-start-1))
+			}
+			cuts = append(cuts, e+1+g.rng.Intn(3))
+			start = e
+		}
+		out = append(out, chunking{"mid+spill", cutAt(stream, sortedUnique(cuts))})
+	}
 	// coalesced pairs / triples of items
 	for _, k := range []int{2, 3} {
 		var cuts []int
@@ -562,6 +575,85 @@ func (g *gen) genReconn(maxLen int64, nClient, nServer int) {
 	}
 }
 
+// genSpill: a larger packet that spans several reads, whose LAST read also carries exactly the
+// first 1, 2 or 3 bytes of the next packet's length prefix, followed by smaller packets that
+// together are shorter than the large one (a loop that remembers "the head packet needs L bytes"
+// across the packet boundary would withhold them). Both sides; the rest of the stream arrives
+// whole, per packet, or byte by byte.
+func (g *gen) genSpill(maxLen int64) {
+	sizes := legalSizes(maxLen, 9000)
+	if len(sizes) == 0 {
+		return
+	}
+	var bigs []int
+	for _, n := range sizes {
+		if n >= 6 {
+			bigs = append(bigs, n)
+		}
+	}
+	if len(bigs) == 0 {
+		return
+	}
+	for k := 1; k <= 3; k++ {
+		L := bigs[g.rng.Intn(len(bigs))]
+		if g.rng.Intn(2) == 0 {
+			L = bigs[len(bigs)-1]
+			for _, n := range bigs {
+				if n > L {
+					L = n
+				}
+			}
+		}
+		big := item{bytes: frameOf(g.body(L - 4))}
+		items := []item{big}
+		if g.rng.Intn(3) == 0 { // a packet before it, so that the large one does not start the connection
+			items = []item{{bytes: []byte{0, 0, 0, 4}}, big}
+		}
+		start := len(cat(items)) - L
+		budget := L - 4 - 1 // followers incl. sentinel stay shorter than the large packet
+		for budget >= 4 && g.rng.Intn(4) != 0 {
+			var cand []int
+			for _, n := range sizes {
+				if n <= budget && n <= 64 {
+					cand = append(cand, n)
+				}
+			}
+			if len(cand) == 0 {
+				break
+			}
+			n := cand[g.rng.Intn(len(cand))]
+			items = append(items, item{bytes: frameOf(g.body(n - 4))})
+			budget -= n
+		}
+		items = append(items, item{bytes: []byte{0, 0, 0, 4}})
+		stream := cat(items)
+		endBig := start + L
+		// the large packet in 2..4 reads (cuts inside its header and body)
+		var cuts []int
+		for i, n := 0, 1+g.rng.Intn(3); i < n; i++ {
+			cuts = append(cuts, start+1+g.rng.Intn(L-1))
+		}
+		cuts = append(cuts, endBig+k)
+		for _, style := range []string{"rest-whole", "rest-per-item", "rest-bytes"} {
+			cs := append([]int{}, cuts...)
+			switch style {
+			case "rest-per-item":
+				for _, e := range bounds(items) {
+					if e > endBig+k {
+						cs = append(cs, e)
+					}
+				}
+			case "rest-bytes":
+				for e := endBig + k + 1; e < len(stream) && e < endBig+k+200; e++ {
+					cs = append(cs, e)
+				}
+			}
+			ch := chunking{fmt.Sprintf("spill+%d/%s", k, style), cutAt(stream, sortedUnique(cs))}
+			g.emit("spill-into-next-header", maxLen, items, []chunking{ch}, bothSides)
+		}
+	}
+}
+
 func posName(pos, k int) string {
 	switch {
 	case pos == 0:
@@ -663,6 +755,9 @@ func genCases(rng *rand.Rand, thorough bool) []tcase {
 		g.cases = append(g.cases[:from], thin(rng, g.cases[from:], budget)...)
 		g.genReq(m)
 		g.genReconn(m, 8*scale, 2*scale)
+		for i := 0; i < scale; i++ {
+			g.genSpill(m)
+		}
 		if m >= 5 {
 			n1 := 4 + rng.Intn(int(min64(m, 60))-3)
 			n2 := 4 + rng.Intn(int(min64(m, 60))-3)
